@@ -96,6 +96,8 @@ package intermediate
 //@   ensures  removed: forall k: old(has(a.flowKeyRecordMap, k)) && !has(a.flowKeyRecordMap, k) && old(a.flowKeyRecordMap[k].ReadyToSend) ==> old(itemOf(a, k).inactiveExpireTime) <= $lastNow
 //@   ensures  kept: forall k: old(has(a.flowKeyRecordMap, k)) && old(a.flowKeyRecordMap[k].ReadyToSend) && old(itemOf(a, k).inactiveExpireTime) > $lastNow ==> has(a.flowKeyRecordMap, k)
 //@   ensures  rearm: err == nil ==> (forall k: has(a.flowKeyRecordMap, k) && a.flowKeyRecordMap[k].ReadyToSend && old(itemOf(a, k).activeExpireTime) <= $lastNow ==> itemOf(a, k).activeExpireTime == $lastNow + a.activeExpiryTimeout)
+//@   // C07: a flow that is not ready is dropped by the scan only after it has been retried MaxRetries times (not earlier)
+//@   ensures  dropafter: forall k: old(has(a.flowKeyRecordMap, k)) && !has(a.flowKeyRecordMap, k) && !old(a.flowKeyRecordMap[k].ReadyToSend) ==> old(a.flowKeyRecordMap[k].waitForReadyToSendRetries) >= MaxRetries
 //@   callpre functype:intermediate.FlowKeyRecordMapCallBack only_due: record.ReadyToSend && (pqItem.activeExpireTime <= currTime || pqItem.inactiveExpireTime <= currTime)
 //@   callpre functype:intermediate.FlowKeyRecordMapCallBack earliest: forall i in [0, len(a.expirePriorityQueue)): minExp(pqItem) <= minExp(a.expirePriorityQueue[i])
 //@   callpre functype:intermediate.FlowKeyRecordMapCallBack held: has(a.flowKeyRecordMap, mapkey(key)) && a.flowKeyRecordMap[mapkey(key)] == record
@@ -107,6 +109,9 @@ package intermediate
 //@   // with re-armed deadlines): the scan cannot hand the same flow to the callback over and over. (Termination itself is not proved.)
 //@   loop 1 step progress: forall i in [0, len(a.expirePriorityQueue)): a.expirePriorityQueue[i] == pqItem ==> minExp(a.expirePriorityQueue[i]) > currTime
 //@   loop 1 invariant nonew: forall k: has(a.flowKeyRecordMap, k) ==> old(has(a.flowKeyRecordMap, k)) && a.flowKeyRecordMap[k] == old(a.flowKeyRecordMap[k])
+//@   loop 1 invariant retr: forall k: has(a.flowKeyRecordMap, k) && !a.flowKeyRecordMap[k].ReadyToSend ==> a.flowKeyRecordMap[k].waitForReadyToSendRetries == old(a.flowKeyRecordMap[k].waitForReadyToSendRetries)
+//@                    || (a.flowKeyRecordMap[k].waitForReadyToSendRetries == old(a.flowKeyRecordMap[k].waitForReadyToSendRetries) + 1 && minExp(itemOf(a, k)) > $lastNow)
+//@   loop 1 invariant dropafter: forall k: old(has(a.flowKeyRecordMap, k)) && !has(a.flowKeyRecordMap, k) && !old(a.flowKeyRecordMap[k].ReadyToSend) ==> old(a.flowKeyRecordMap[k].waitForReadyToSendRetries) >= MaxRetries
 //@   loop 1 invariant same: forall k: has(a.flowKeyRecordMap, k) ==> itemOf(a, k) == old(itemOf(a, k)) && a.flowKeyRecordMap[k].ReadyToSend == old(a.flowKeyRecordMap[k].ReadyToSend)
 //@   loop 1 invariant inact: forall k: has(a.flowKeyRecordMap, k) && a.flowKeyRecordMap[k].ReadyToSend ==> itemOf(a, k).inactiveExpireTime == old(itemOf(a, k).inactiveExpireTime)
 //@   loop 1 invariant removed: forall k: old(has(a.flowKeyRecordMap, k)) && !has(a.flowKeyRecordMap, k) && old(a.flowKeyRecordMap[k].ReadyToSend) ==> old(itemOf(a, k).inactiveExpireTime) <= $lastNow
